@@ -544,6 +544,13 @@ impl DocumentInline {
         }
     }
 
+    pub fn is_wiki_link(&self) -> bool {
+        match self {
+            DocumentInline::Link(link) => link.link_type != LinkType::Regular,
+            _ => false,
+        }
+    }
+
     fn ref_type(&self) -> Option<ReferenceType> {
         match self {
             DocumentInline::Link(link) => Some(link.link_type.to_ref_type()),
